@@ -29,7 +29,7 @@ ASSUMPTIONS = ["filters are registered before start (the quantifier's 'sets of w
 FLOORS = {"quick": {"scenarios": 8000, "rounds_checked": 15000, "find_entries_checked": 25000, "rounds_with_found_filters": 4000,
                     "sequences_ended_all_found": 500, "event_at_round_before": 1000, "event_at_round_after": 1000,
                     "event_round_adjacent": 1500, "offers_expired_between_rounds": 800, "max_rounds_reached": 1000,
-                    "mesh_scenarios": 100, "mesh_find_entries_checked": 800, "mesh_finds_judged_against_listener_knowledge": 300}}
+                    "mesh_scenarios": 100, "mesh_find_entries_checked": 480, "mesh_finds_judged_against_listener_knowledge": 180}}
 # system-level shards: the mesh workload of pv/mesh.py under this property's boundary monitor (reports of other monitors are dropped)
 MESH = {"want": ("finds",), "claim": ("mesh:find-",),
         "quick": (2, 60), "thorough": (16, 1500)}
